@@ -248,6 +248,8 @@ theorem WF_step (pol : Policy) (cfg : Cfg) (reqs : List ReqSpec) (g : G) (st : S
           · subst h'; rfl
           · exact hq r' h' hcond
     · exact ⟨hc, hq⟩
+  | up b => exact ⟨hc, hq⟩
+  | down b => exact ⟨hc, hq⟩
 
 theorem WF_run (pol : Policy) (cfg : Cfg) (reqs : List ReqSpec) (sched : List Step) :
     ∀ (g : G) (chs : List (List Nat)), WF g → WF (runSched pol cfg reqs g sched chs) := by
@@ -354,6 +356,8 @@ theorem PWF_step (dial : Nat → Bool) (rm : Nat) (scripts : List (List Pick)) (
           · subst h'; rfl
           · exact hq r' h' hcond
     · exact ⟨hc, hq⟩
+  | up b => exact ⟨hc, hq⟩
+  | down b => exact ⟨hc, hq⟩
 
 open Px in
 theorem PWF_run (dial : Nat → Bool) (rm : Nat) (scripts : List (List Pick)) (sched : List Step) :
